@@ -437,6 +437,8 @@ class SQLParser(Parser):
     def from_table_aliased(self, p):
         entity = p.from_table
         if hasattr(p, 'identifier'):
+            if len(p.identifier.parts) > 1:
+                raise ParsingException('Alias can not contain multiple parts (dots).')
             entity.alias = p.identifier
         return entity
 
@@ -496,6 +498,8 @@ class SQLParser(Parser):
         col = p.result_column
         if col.alias:
             raise ParsingException(f'Attempt to provide two aliases for {str(col)}')
+        if len(p.identifier.parts) > 1:
+            raise ParsingException('Alias can not contain multiple parts (dots).')
         col.alias = p.identifier
         return col
 
